@@ -11,7 +11,7 @@ Definition bad := match first_bad h with Some i => i | None => 0%nat end.
 Eval vm_compute in first_bad h.
 Definition upto (n : nat) := fold_left (fun s o => fst (step s (fst o))) (firstn n h) empty_sys.
 Eval vm_compute in nth_error h bad.
-Definition dflt := (ONew 0 0 SLww [], mkObs 0 RcOk None None true true [] [] [] 0 []).
+Definition dflt := (ONew 0 0 SLww [] 0, mkObs 0 RcOk None None true true [] [] [] 0 []).
 Definition sb := step (upto bad) (fst (nth bad h dflt)).
 Eval vm_compute in snd sb.
 Eval vm_compute in map (fun l => (okeys (l_entries l), map e_hash (heads l), match values l with Some v => okeys v | None => [] end, l_time l)) (s_logs (fst sb)).
